@@ -51,9 +51,30 @@ def generate_long(rng):
     return {"world": env, "ops": ops}
 
 
+def generate_empty(rng):
+    """a history without any non-ignored file, sealed several times (also with -n, also within one second): the
+    manifests of such generations can be byte-identical apart from their names"""
+    from .. import gen
+
+    env = gen.gen_env(rng)
+    env["clock_profile"] = rng.choice(["calm", "frozen"])
+    k = rng.randrange(3)
+    tree = {} if k == 0 else {"E": {"t": "d"}, "E/F": {"t": "d"}} if k == 1 else {"x.bak": {"t": "f", "c": gen.unique_content(rng)}}
+    env["tree"] = tree
+    extra = ["-i", "*.bak"] if k == 2 else []
+    ops = []
+    for g in range(rng.randint(3, 5)):
+        args = ["-h", rng.choice(["md5", "c4"])] + (["-n"] if rng.random() < 0.7 else []) + extra
+        ops.append(scen.cmd("create", "@R", *args))
+        ops.append({"op": "advance", "us": rng.choice([0, 0, 0, 1_000_000])})
+    return {"world": env, "ops": ops}
+
+
 def generate(rng, tier):
     if rng.random() < 0.06:
         return generate_long(rng)
+    if rng.random() < 0.05:
+        return generate_empty(rng)
     sc = explore.generate(rng, tier, WEIGHTS, hostile=0.1)
     # sprinkle clock faults
     ops = []
